@@ -6428,7 +6428,8 @@ class CodegenCtx:
             ) for action in transition.actions
         ):
             transition_body.add("// skip action label")
-            transition_body.add(f"{self._transition_skip_action_label(transition)}:")
+            # (with the empty statement a label needs behind it: it may be the last thing in its block)
+            transition_body.add(f"{self._transition_skip_action_label(transition)}:;")
         # Check if we should fallthrough and generate a goto
         if transition.is_fallthrough:
             # (where an action in front of a finish may leave for another state, or one always does, the transition's own target need not exist)
